@@ -74,6 +74,8 @@ fn main() {
                 let f = &r["fault"];
                 let fault = if let Some(k) = f.get("crash_at") {
                     e1c::Fault::CrashAt(k.as_u64().unwrap() as usize)
+                } else if let Some(k) = f.get("crash_at_mine_down") {
+                    e1c::Fault::CrashAtMineDown(k.as_u64().unwrap() as usize)
                 } else {
                     let d = &f["download_failure"];
                     e1c::Fault::DownloadFailure { op: d[0].as_u64().unwrap() as usize, block: d[1].as_u64().unwrap() as usize, persistent: d[2].as_bool().unwrap() }
